@@ -2309,42 +2309,72 @@ package otto
 //@ func builtinStringConcat
 //@   props C09
 //@   nosafety
+//@   requires wfCall(call) && argsOK(call.ArgumentList) && call.runtime != nil
+//@   stable call.ArgumentList
+//@   abstract_callee execRegExp, (*object).call
 //@   calls checkObjectCoercible(call.runtime, call.This)
 //@ func builtinStringMatch
 //@   props C09
 //@   nosafety
+//@   requires wfCall(call) && argsOK(call.ArgumentList) && call.runtime != nil
+//@   stable call.ArgumentList
+//@   abstract_callee execRegExp, (*object).call
 //@   calls checkObjectCoercible(call.runtime, call.This)
 //@ func builtinStringReplace
 //@   props C09
 //@   nosafety
+//@   requires wfCall(call) && argsOK(call.ArgumentList) && call.runtime != nil
+//@   stable call.ArgumentList
+//@   abstract_callee execRegExp, (*object).call
 //@   calls checkObjectCoercible(call.runtime, call.This)
 //@ func builtinStringStartsWith
 //@   props C09
 //@   nosafety
+//@   requires wfCall(call) && argsOK(call.ArgumentList) && call.runtime != nil
+//@   stable call.ArgumentList
+//@   abstract_callee execRegExp, (*object).call
 //@   calls checkObjectCoercible(call.runtime, call.This)
 //@ func builtinStringToLowerCase
 //@   props C09
 //@   nosafety
+//@   requires wfCall(call) && argsOK(call.ArgumentList) && call.runtime != nil
+//@   stable call.ArgumentList
+//@   abstract_callee execRegExp, (*object).call
 //@   calls checkObjectCoercible(call.runtime, call.This)
 //@ func builtinStringToUpperCase
 //@   props C09
 //@   nosafety
+//@   requires wfCall(call) && argsOK(call.ArgumentList) && call.runtime != nil
+//@   stable call.ArgumentList
+//@   abstract_callee execRegExp, (*object).call
 //@   calls checkObjectCoercible(call.runtime, call.This)
 //@ func builtinStringTrim
 //@   props C09
 //@   nosafety
+//@   requires wfCall(call) && argsOK(call.ArgumentList) && call.runtime != nil
+//@   stable call.ArgumentList
+//@   abstract_callee execRegExp, (*object).call
 //@   calls checkObjectCoercible(call.runtime, call.This)
 //@ func builtinStringTrimLeft
 //@   props C09
 //@   nosafety
+//@   requires wfCall(call) && argsOK(call.ArgumentList) && call.runtime != nil
+//@   stable call.ArgumentList
+//@   abstract_callee execRegExp, (*object).call
 //@   calls checkObjectCoercible(call.runtime, call.This)
 //@ func builtinStringTrimRight
 //@   props C09
 //@   nosafety
+//@   requires wfCall(call) && argsOK(call.ArgumentList) && call.runtime != nil
+//@   stable call.ArgumentList
+//@   abstract_callee execRegExp, (*object).call
 //@   calls checkObjectCoercible(call.runtime, call.This)
 //@ func builtinStringLocaleCompare
 //@   props C09
 //@   nosafety
+//@   requires wfCall(call) && argsOK(call.ArgumentList) && call.runtime != nil
+//@   stable call.ArgumentList
+//@   abstract_callee execRegExp, (*object).call
 //@   calls checkObjectCoercible(call.runtime, call.This)
 
 // Function instances (13.2 step 18, 15.3.5.2): prototype is writable, not enumerable, not
